@@ -170,6 +170,305 @@ def boundary_module(name="MC0"):
     return {"name": name, "default": "IMPLICIT", "defs": defs, "trees": trees, "text": cmodule_text(name, "IMPLICIT", defs)}
 
 
+# ---------------------------------------------------------------- systematic boundary modules
+# Bounds of every constraint kind come from one set: MIN, MAX, 0, +-1 and +-(2^k-1), +-2^k, +-(2^k+1)
+# for the k where a C type, a length form or an encoding changes.  (asn1c_integer_t is 128 bits wide in
+# this build, so every one of them is a legal bound; the generated C compares against the literal.)
+KS = (7, 8, 15, 16, 31, 32, 63)
+
+
+def bounds():
+    s = {0, 1, -1}
+    for k in KS:
+        for d in (-1, 0, 1):
+            s.add(2**k + d)
+            s.add(-(2**k + d))
+    return sorted(s)
+
+
+def mk_int(parts):
+    return {"k": "int", "parts": [tuple(p) for p in parts], "exc": [], "con": None}
+
+
+def mk_oct(parts):
+    return {"k": "oct", "parts": [tuple(p) for p in parts], "con": None}
+
+
+def hull(parts):
+    los = [a for a, _ in parts]
+    his = [b for _, b in parts]
+    return (None if None in los else min(los)), (None if None in his else max(his))
+
+
+def needs_unsigned(parts):
+    """the INTEGER gets `unsigned` specifics (asn1c_type_fits_long == FL_FITS_UNSIGN without -fwide-types):
+    such a type as the element of an OF nested in a structure, or behind an EXPLICIT tag, does not compile
+    (recorded by C10 / C02) and is kept out of those positions"""
+    lo, hi = hull(parts)
+    return lo is not None and lo >= 0 and (hi is None or 2**31 <= hi < 2**32)
+
+
+def int_boundary_constraints(rng, tier):
+    """[(label, parts)]: every half-open range and single value over bounds(), closed ranges between
+    neighbouring bounds / from 0 / symmetric / a seeded sample of arbitrary pairs, and unions of adjacent,
+    touching and disjoint pieces (closed and half-open) around a seeded sample of pivots"""
+    B = bounds()
+    out = [("full", [(None, None)])]
+    for b in B:
+        out.append(("upto", [(None, b)]))
+        out.append(("from", [(b, None)]))
+        out.append(("single", [(b, b)]))
+    for a, b in zip(B, B[1:]):
+        out.append(("closed-neighbours", [(a, b)]))
+    for x in B:
+        if x > 0:
+            out.append(("closed-from0", [(0, x)]))
+        elif x < 0:
+            out.append(("closed-to0", [(x, 0)]))
+    for k in KS:
+        out.append(("closed-symmetric", [(-(2**k), 2**k)]))
+        out.append(("closed-symmetric", [(-(2**k), 2**k - 1)]))
+    npairs = 24 if tier == "quick" else 160
+    for _ in range(npairs):
+        a, b = rng.choice(B), rng.choice(B)
+        if a > b:
+            a, b = b, a
+        if a != b:
+            out.append(("closed-pair", [(a, b)]))
+    pivots = [0, 1, -1] + rng.shuffle([b for b in B if abs(b) > 1])[:(9 if tier == "quick" else 42)]
+    for m in pivots:
+        out.append(("union-adjacent", [(m - 3, m), (m + 1, m + 4)]))            # joinable: one interval
+        out.append(("union-touching", [(m - 3, m), (m, m + 4)]))
+        out.append(("union-gap1", [(m - 3, m), (m + 2, m + 4)]))
+        out.append(("union-reversed", [(m + 2, m + 4), (m - 3, m)]))
+        out.append(("union-open-hole1", [(None, m), (m + 2, None)]))
+        out.append(("union-open-nohole", [(None, m), (m + 1, None)]))
+        out.append(("union-open-left", [(None, m), (m + 2, m + 5)]))
+        out.append(("union-open-right", [(m - 5, m - 2), (m, None)]))
+        out.append(("union-singles-adjacent", [(m, m), (m + 1, m + 1)]))
+        out.append(("union-singles-gap", [(m, m), (m + 2, m + 2)]))
+        out.append(("union-three", [(m - 4, m - 3), (m - 1, m), (m + 2, m + 3)]))
+    seen, res = set(), []
+    for lab, ps in out:
+        key = tuple(ps)
+        if key in seen:
+            continue
+        seen.add(key)
+        # libasn1fix's _range_split stops at INTMAX_MAX / INTMAX_MIN ("We've hit the limit here") although
+        # asn1c_integer_t is 128 bits wide here: a union part ending exactly at 2^63-1 swallows the parts to its
+        # right (starting at -2^63: to its left).  C09's subject (crange); the shape is kept out of this generator.
+        if len(ps) > 1 and (any(b == 2**63 - 1 for _a, b in ps) or any(a == -2**63 for a, _b in ps)):
+            continue
+        core = lab in ("full", "upto", "from", "single")          # every half-open range and single value, always
+        if core or tier != "quick" or rng.chance(1, 3):
+            res.append((lab, ps))
+    return res
+
+
+SIZE_SMALL = [0, 1, 2, 127, 128, 129, 255, 256, 257]
+SIZE_BIG = [32767, 65535, 65536]
+SIZE_HUGE = [2**31 - 1, 2**31, 2**31 + 1, 2**32 - 1, 2**32, 2**32 + 1, 2**63 - 1, 2**63, 2**63 + 1]
+
+
+def size_boundary_constraints(rng, tier, cap):
+    S = [x for x in SIZE_SMALL + (SIZE_BIG if cap > 1000 else []) if x + 1 <= cap]
+    out = []
+    for b in S:
+        out.append(("size-upto", [(0, b)]))
+        out.append(("size-from", [(b, None)]))
+        out.append(("size-single", [(b, b)]))
+    for a, b in zip(S, S[1:]):
+        out.append(("size-closed", [(a, b)]))
+    for h in SIZE_HUGE:
+        out.append(("size-upto-huge", [(0, h)]))
+        out.append(("size-from-huge", [(h, None)]))
+        out.append(("size-closed-huge", [(1, h)]))
+    for m in [0, 1, 2, 128, 256]:
+        out.append(("size-union-gap", [(0, m), (m + 2, m + 3)]))
+        out.append(("size-union-adjacent", [(m, m), (m + 1, m + 1)]))
+        out.append(("size-union-open", [(m, m), (m + 2, None)]))
+        out.append(("size-union-zero", [(0, 0), (m + 2, None)]))
+    seen, res = set(), []
+    for lab, ps in out:
+        key = tuple(ps)
+        if key not in seen and ps != [(0, None)]:
+            seen.add(key)
+            res.append((lab, ps))
+    return res
+
+
+def _chunks(xs, n):
+    return [xs[i:i + n] for i in range(0, len(xs), n)]
+
+
+def boundary_modules(rng, tier, chunk=12):
+    """the systematic modules: MBI (INTEGER value constraints), MBS (SIZE of OCTET STRING / SEQUENCE OF / SET OF).
+    Every constraint appears as a SEQUENCE member; a seeded share also as a type of its own and a reference
+    definition to it, as the element of a SEQUENCE OF inside a SEQUENCE (2 levels down), as a CHOICE
+    alternative, and as the element of a SET OF inside a CHOICE inside two SEQUENCEs (3 levels down).
+    Member names are unique in the module (the modules are also compiled without -fcompound-names)."""
+    def SEQ(tn, ms):
+        return {"k": "seq", "ms": [("%sm%d" % (tn.lower(), j), t, False) for j, t in enumerate(ms)]}
+
+    def CHO(tn, ms):
+        return {"k": "choice", "ms": [("%sm%d" % (tn.lower(), j), t, False) for j, t in enumerate(ms)]}
+
+    def DEEP(tn, ms):
+        low = tn.lower()
+        return {"k": "seq", "ms": [(low + "a", {"k": "seq", "ms": [(low + "b", CHO(tn, ms), False)]}, False)]}
+    OF = lambda el, kind="seqof", parts=(): {"k": kind, "parts": list(parts), "el": el, "con": None}
+    share = (lambda: rng.chance(1, 8)) if tier == "quick" else (lambda: rng.chance(1, 3))
+    mods = []
+    # ---- INTEGER
+    cons = int_boundary_constraints(rng, tier)
+    defs = []
+    for i, ch in enumerate(_chunks(cons, chunk)):
+        defs.append(("BS%d" % i, SEQ("BS%d" % i, [mk_int(ps) for _l, ps in ch])))
+    prio = [c for c in cons if c[0] in ("upto", "from", "single") and any(abs(x) <= 1 or abs(abs(x) - 2**31) <= 1 or abs(abs(x) - 2**63) <= 1
+                                                                          for p in c[1] for x in p if x is not None)]
+    tops = prio + [c for c in cons if c not in prio and share()]
+    for j, (_l, ps) in enumerate(tops):
+        defs.append(("BT%d" % j, mk_int(ps)))
+        if j % 3 == 0:
+            defs.append(("BR%d" % j, {"k": "ref", "ref": "BT%d" % j}))
+    nested = [c for c in cons if not needs_unsigned(c[1]) and (c in prio or share())]
+    for i, ch in enumerate(_chunks(nested, chunk)):
+        defs.append(("BQ%d" % i, SEQ("BQ%d" % i, [OF(mk_int(ps)) for _l, ps in ch])))
+        defs.append(("BN%d" % i, DEEP("BN%d" % i, [OF(mk_int(ps), "setof") for _l, ps in ch])))
+    alts = [c for c in cons if c in prio or share()]
+    for i, ch in enumerate(_chunks(alts, chunk)):
+        defs.append(("BC%d" % i, CHO("BC%d" % i, [mk_int(ps) for _l, ps in ch])))
+    mods.append(("MBI", defs))
+    # ---- SIZE
+    defs = []
+
+    def minlen(ps, cap):
+        for n in range(0, cap + 1):
+            if in_parts(ps, n):
+                return n
+        return None
+    ocons = size_boundary_constraints(rng, tier, CAP_OCT)
+    short = [c for c in ocons if minlen(c[1], 600) is not None]
+    long_ = [c for c in ocons if minlen(c[1], 600) is None and minlen(c[1], CAP_OCT) is not None]      # satisfiable by long strings only: types of their own
+    never = [c for c in ocons if minlen(c[1], CAP_OCT) is None]                                       # no value within the cap satisfies: SEQUENCEs of their own
+    for i, ch in enumerate(_chunks(short, chunk) + _chunks(never, chunk)):
+        defs.append(("ZS%d" % i, SEQ("ZS%d" % i, [mk_oct(ps) for _l, ps in ch])))
+    for j, (_l, ps) in enumerate(long_):
+        defs.append(("ZL%d" % j, mk_oct(ps)))
+    for j, (_l, ps) in enumerate([c for c in short if share()]):
+        defs.append(("ZT%d" % j, mk_oct(ps)))
+    qcons = size_boundary_constraints(rng, tier, CAP_OF)
+    qshort = [c for c in qcons if minlen(c[1], CAP_OF) is not None]
+    qnever = [c for c in qcons if minlen(c[1], CAP_OF) is None]
+    for i, ch in enumerate(_chunks(qshort, chunk) + _chunks(qnever, chunk)):
+        defs.append(("ZQ%d" % i, SEQ("ZQ%d" % i, [OF({"k": "bool"}, "seqof" if j % 2 else "setof", ps) for j, (_l, ps) in enumerate(ch)])))
+    sub = [c for c in qshort if share()]
+    for i, ch in enumerate(_chunks(sub, chunk)):
+        defs.append(("ZC%d" % i, CHO("ZC%d" % i, [OF(mk_int([(0, 7)]), "seqof", ps) for _l, ps in ch])))
+    sub = [c for c in short if share()]
+    for i, ch in enumerate(_chunks(sub, chunk)):
+        defs.append(("ZN%d" % i, DEEP("ZN%d" % i, [mk_oct(ps) for _l, ps in ch])))
+    mods.append(("MBS", defs))
+    out = []
+    for name, defs in mods:
+        env = dict(defs)
+        trees = {n: resolve(t, "AUTOMATIC", env) for n, t in defs}
+        out.append({"name": name, "default": "AUTOMATIC", "defs": defs, "trees": trees, "text": cmodule_text(name, "AUTOMATIC", defs), "boundary": True})
+    return out
+
+
+def lite_module(m, prefixes=("BS", "ZS", "ZQ")):
+    """the SEQUENCE-of-members part of a systematic module (every constraint once), for the secondary flag sets"""
+    defs = [(n, t) for n, t in m["defs"] if n[:2] in prefixes]
+    return dict(m, defs=defs, trees={n: m["trees"][n] for n, _t in defs}, text=cmodule_text(m["name"], m["default"], defs))
+
+
+def int_edge_values(t):
+    """values at, just inside and just outside every edge of every part, and far ones"""
+    ps = t["parts"]
+    vals = []
+    fin = [x for p in ps for x in p if x is not None]
+    for a, b in ps:
+        for x in (a, b):
+            if x is not None:
+                vals += [x - 1, x, x + 1]
+    lo = min(fin) if fin else 0
+    hi = max(fin) if fin else 0
+    vals += [lo - 2**33, hi + 2**33, -2**70, 2**70, 0]
+    seen, out = set(), []
+    for v in vals:
+        if v not in seen:
+            seen.add(v)
+            out.append(v)
+    return out
+
+
+def size_edge_values(ps, cap):
+    vals = [0, 1]
+    fin = [x for p in ps for x in p if x is not None and x <= cap + 1]
+    for x in fin:
+        vals += [x - 1, x, x + 1]
+    if fin:
+        vals.append(max(fin) + 17)
+    seen, out = set(), []
+    for v in vals:
+        if 0 <= v <= cap and v not in seen:
+            seen.add(v)
+            out.append(v)
+    if sum(1 for v in out if v > 2000) > 3:           # long strings: the three nearest to the largest edge
+        big = sorted(v for v in out if v > 2000)
+        out = [v for v in out if v <= 2000] + big[-3:]
+    return out
+
+
+def fast_bytes(rng, n):
+    """n pseudo-random bytes; long strings repeat a 64-byte random block (their content is irrelevant to C08)"""
+    if n <= 256:
+        return rng.bytes(n)
+    blk = rng.bytes(64)
+    return (blk * (n // 64 + 1))[:n]
+
+
+def sites(t, env, rng, depth=0):
+    """[(description, value)]: one value per (constraint site of the type, edge candidate), everything
+    around the site valid.  Sites: INTEGER leaves, OCTET STRING sizes, OF element counts."""
+    k = t["k"]
+    if k == "ref":
+        return sites(base_of(t, env), env, rng, depth)
+    if k == "int":
+        return [("value", z) for z in int_edge_values(t)] if t["parts"] else []
+    if k == "oct":
+        return [("size", fast_bytes(rng, n)) for n in size_edge_values(t["parts"], CAP_OCT)] if t["parts"] else []
+    if k in ("seqof", "setof"):
+        out = []
+        if t["parts"]:
+            for n in size_edge_values(t["parts"], CAP_OF):
+                out.append(("count", ("L", [valid_value(t["el"], rng, env, 3) for _ in range(n)])))
+        want = [n for n in (2, 1, 3) if not t["parts"] or in_parts(t["parts"], n)]
+        n = want[0] if want else max(1, valid_len(t["parts"], rng, 6))
+        for i, (d, x) in enumerate(sites(t["el"], env, rng, depth + 1)):
+            items = [valid_value(t["el"], rng, env, 3) for _ in range(n)]
+            items[i % n] = x
+            out.append((d, ("L", items)))
+        return out
+    if k == "seq":
+        out = []
+        base = [valid_value(mt, rng, env, 3) for _n, mt, _o in t["ms"]]
+        for i, (_n, mt, opt) in enumerate(t["ms"]):
+            for d, x in sites(mt, env, rng, depth + 1):
+                items = [("!", b) if o else b for b, (_n2, _t2, o) in zip(base, t["ms"])]
+                items[i] = ("!", x) if opt else x
+                out.append((d, ("S", items)))
+        return out
+    if k == "choice":
+        out = []
+        for i, (_n, mt, _o) in enumerate(t["ms"]):
+            for d, x in sites(mt, env, rng, depth + 1):
+                out.append((d, ("C", i, x)))
+        return out
+    return []
+
+
 # ---------------------------------------------------------------- cty strings
 def es(x):
     return "*" if x is None else str(x)
@@ -221,32 +520,19 @@ def in_parts(ps, z):
     return any((a is None or a <= z) and (b is None or z <= b) for a, b in ps)
 
 
-def has_own(t):
-    k = t["k"]
-    return (k in ("int", "oct", "seqof", "setof")) and bool(t["parts"])
-
-
-def hole_excuse(ps, z):
-    return any(a is None for a, _ in ps) and any(b is None for _, b in ps) and not in_parts(ps, z)
-
-
-def violated(t, v, env, slot=False, masked=False, path=(), out=None):
+def violated(t, v, env, slot=False, path=(), out=None):
     """list of (path, what, excuses) for every constraint of the type the value violates.
     excuses: the known findings that explain why the C does not see this violation."""
     if out is None:
         out = []
     k = t["k"]
-    ex = ["C08-sequence-early-return"] if masked else []
+    ex = []
     if k == "ref":
         tgt = env[t["ref"]]
-        return violated(base_of(tgt, env), v, env, tgt["k"] == "ref", masked, path, out)
+        return violated(base_of(tgt, env), v, env, tgt["k"] == "ref", path, out)
     if k == "int":
         ps = t["parts"]
         if ps and not in_parts(ps, v):
-            if hole_excuse(ps, v):
-                ex = ex + ["C08-min-max-union-unchecked"]
-            if list(ps) == [(0, 4294967295)] and v > 4294967295:
-                ex = ex + ["C08-ulong-shortcut"]
             out.append((path, "value %d not in (%s)" % (v, parts_text(ps)), ex))
         elif in_parts(t["exc"], v):
             out.append((path, "value %d excluded by EXCEPT" % v, ex + ["C08-except-ignored"]))
@@ -258,19 +544,16 @@ def violated(t, v, env, slot=False, masked=False, path=(), out=None):
         if t["parts"] and not in_parts(t["parts"], n):
             out.append((path, "count %d not in SIZE(%s)" % (n, parts_text(t["parts"])), ex + ([] if slot else ["C08-of-size-unchecked"])))
         for i, x in enumerate(v[1]):
-            violated(t["el"], x, env, True, masked, path + (i,), out)
+            violated(t["el"], x, env, True, path + (i,), out)
     elif k == "seq":
-        m = masked
         for i, ((_n, mt, opt), mv) in enumerate(zip(t["ms"], v[1])):
             if opt:
                 if mv[0] == "_":
                     continue
                 mv = mv[1]
-            violated(mt, mv, env, True, m, path + (i,), out)
-            if not has_own(mt):
-                m = True           # SEQUENCE_constraint returns after this member
+            violated(mt, mv, env, True, path + (i,), out)
     elif k == "choice":
-        violated(t["ms"][v[1]][1], v[2], env, True, masked, path + (v[1],), out)
+        violated(t["ms"][v[1]][1], v[2], env, True, path + (v[1],), out)
     return out
 
 
@@ -298,15 +581,13 @@ def int_leaves(t, v, env, out=None):
 
 
 def wide_open_leaf(t, v, env):
-    """an INTEGER whose range is open on one side and whose finite bound leaves the 32-bit range
-    (held in an INTEGER_t, read with asn_INTEGER2long) with a value outside 64 bits"""
+    """an INTEGER held in an INTEGER_t whose value does not fit the (unsigned) long the generated checker
+    reads it into although it satisfies the range: `value too large` is reported before the range is looked at"""
     for it, z in int_leaves(t, v, env):
         ps = it["parts"]
         if not ps or I64[0] <= z <= I64[1]:
             continue
-        los = [a for a, _ in ps]
-        his = [b for _, b in ps]
-        if (None in los) != (None in his):
+        if in_parts(ps, z):
             return True
     return False
 
@@ -331,7 +612,8 @@ def int_candidates(t):
 
 def valid_int(t, rng):
     ps = t["parts"]
-    good = [c for c in int_candidates(t) if (not ps or in_parts(ps, c)) and not in_parts(t["exc"], c) and I64[0] <= c <= I64[1]]
+    allg = [c for c in int_candidates(t) if (not ps or in_parts(ps, c)) and not in_parts(t["exc"], c)]
+    good = [c for c in allg if I64[0] <= c <= I64[1]] or allg
     lo_s = [a for a, _ in ps if a is not None]
     if ps and lo_s and min(lo_s) >= 0 and all(a is not None for a, _ in ps):
         good = [c for c in good if c >= 0]
@@ -345,7 +627,10 @@ def valid_len(ps, rng, cap):
     for a, b in ps:
         cand += [a, a + 1] + ([b, b - 1] if b is not None else [a + 3])
     cand = [c for c in cand if 0 <= c <= cap and in_parts(ps, c)]
-    return rng.choice(cand) if cand else ps[0][0]
+    if cand:
+        return rng.choice(cand)
+    small = [n for n in range(0, min(cap, 600) + 1) if in_parts(ps, n)]
+    return small[0] if small else 1          # no length within the cap satisfies: the value is invalid, and short
 
 
 def valid_value(t, rng, env, depth=0):
@@ -618,6 +903,29 @@ def py_der(tree, v):
     if k == "x":
         return tlv(tree[1], True, py_der(tree[2], v))
     raise ValueError(k)
+
+
+def canon_value(tree, v):
+    """the value as the decoder will see it: the elements of a SET OF in the order of their DER encodings"""
+    k = tree[0]
+    if k == "s":
+        out = []
+        for m, x in zip(tree[2], v[1]):
+            if m[0] == "?":
+                out.append(x if x[0] == "_" else ("!", canon_value(m[1], x[1])))
+            else:
+                out.append(canon_value(m, x))
+        return ("S", out)
+    if k in ("q", "t"):
+        items = [canon_value(tree[3], x) for x in v[1]]
+        if k == "t":
+            items.sort(key=lambda x: py_der(tree[3], x))
+        return ("L", items)
+    if k == "c":
+        return ("C", v[1], canon_value(tree[1][v[1]], v[2]))
+    if k == "x":
+        return canon_value(tree[2], v)
+    return v
 
 
 def all_int64(v):
